@@ -45,17 +45,33 @@ def visible_lines(filename):
         if isinstance(node, ast.Global):
             globs.update(node.names)
     lines = set()
+    aliased = set()      # functions that receive a shared object (module global / self attribute) as an argument
     for node in ast.walk(tree):
         if isinstance(node, ast.Attribute) and isinstance(node.value, ast.Name) and node.value.id in ('self', 'cls'):
             lines.add(node.lineno)
         elif isinstance(node, ast.Name) and node.id in globs:
             lines.add(node.lineno)
+        if isinstance(node, ast.Call) and isinstance(node.func, ast.Name):
+            for a in list(node.args) + [k.value for k in node.keywords]:
+                if (isinstance(a, ast.Name) and a.id in globs and a.id.upper() != a.id) or \
+                        (isinstance(a, ast.Attribute) and isinstance(a.value, ast.Name) and a.value.id == 'self'):
+                    aliased.add(node.func.id)
+    # inside such a function the shared object is a local name: every line of its body is visible
+    for node in ast.walk(tree):
+        if isinstance(node, (ast.FunctionDef, ast.AsyncFunctionDef)) and node.name in aliased:
+            for sub in ast.walk(node):
+                if hasattr(sub, 'lineno'):
+                    lines.add(sub.lineno)
     _visible_cache[filename] = lines
     return lines
 
 
 class Controlled(object):
-    def __init__(self, fns, root, snapshot=None):
+    def __init__(self, fns, root, snapshot=None, all_lines=False):
+        # all_lines: every source line inside athlib is a yield point (very slow for schema validation,
+        # whose resolver calls back into athlib thousands of times).  Default: AST-detected visible lines,
+        # including every line of a function that is handed a shared object as an argument.
+        self.all_lines = all_lines
         self.fns = fns
         self.root = os.path.realpath(root) + os.sep
         self.n = len(fns)
@@ -87,7 +103,7 @@ class Controlled(object):
         def local(frame, event, arg):
             if event == 'line':
                 fn = frame.f_code.co_filename
-                vis = visible_lines(fn)
+                vis = None if self.all_lines else visible_lines(fn)
                 if vis is None or frame.f_lineno in vis:
                     self.where[i] = (os.path.basename(fn), frame.f_lineno)
                     self.events.put((i, 'ready'))
